@@ -5,6 +5,7 @@ import (
 	"context"
 	"encoding/json"
 	"fmt"
+	"math/rand"
 	"net/http"
 	"os"
 	"strings"
@@ -993,6 +994,172 @@ func streamAckNotLost(t *testing.T, st *Stats) {
 				Note: fmt.Sprintf("after the operations: a MessageStreamer on subscription c receives one request {ack: [c/0], nack: [b/0, a/0]}; statement %d of its handling fails", k)})
 			st.Violate(Violation{What: "[stream-ack-lost] " + what, Replay: p, FoundInput: true, Sig: "stream-ack-lost"})
 			return
+		}
+	}
+}
+
+// pushWindowArithmetic: the adaptive window of an HTTP push connection, batch by batch, against the
+// model's `windowStep` — with no HTTP traffic and no goroutines, so that the size of every batch is
+// what the sequence says (in the end-to-end runs of TestC19 it is whatever the scheduler lets the
+// connection drain at once).  The real `Receive` is driven through the hook PushWindowForVerif.
+// A window outside 1..1000 is a violation with the sequence as its input; any other difference from
+// the model is a broken correspondence.
+func pushWindowArithmetic(t *testing.T, st *Stats, m *Model) {
+	rng := rand.New(rand.NewSource(int64(Seed())*7919 + 19))
+	nseq := 40
+	if Tier() == "thorough" {
+		nseq = 400
+	}
+	kinds := []string{"fast", "slow", "nack"}
+	sizes := []int{1, 1, 2, 3, 5, 9, 10, 11, 12, 37, 99, 100, 101, 250, 999, 1000, 1001, 1500}
+	steps := 0
+	for s := 0; s < nseq && len(st.Violations) == 0; s++ {
+		var seq []string
+		// directed prefixes first: overshoot from small windows, climb to the cap, collapse
+		switch s {
+		case 0:
+			seq = []string{"f1", "s2", "f2", "s3", "f1", "f1", "n1", "f12", "s13", "f12", "s12", "f12", "s11", "s1", "s1"}
+		case 1:
+			seq = []string{"f999", "f1", "f1", "s1", "f2", "n100", "f1500", "n99", "n1", "s1", "f998", "f2", "s999", "s1"}
+		case 2:
+			seq = []string{"f1", "n1", "f10", "n1", "f11", "n1", "f9", "n1", "f20", "n2", "f21", "n2", "s1"}
+		default:
+			n := 5 + rng.Intn(40)
+			for i := 0; i < n; i++ {
+				k := "f"
+				switch r := rng.Intn(10); {
+				case r < 4:
+					k = "f"
+				case r < 7:
+					k = "s"
+				default:
+					k = "n"
+				}
+				seq = append(seq, fmt.Sprintf("%s%d", k, sizes[rng.Intn(len(sizes))]))
+			}
+		}
+		pw := actions.NewPushWindowForVerif()
+		got := []string{"1"}
+		bad := -1
+		for i, b := range seq {
+			kind := map[byte]string{'f': kinds[0], 's': kinds[1], 'n': kinds[2]}[b[0]]
+			var n int
+			fmt.Sscan(b[1:], &n)
+			wdw, _, err := pw.Step(context.Background(), kind, n)
+			if err != nil {
+				t.Fatal(err)
+			}
+			got = append(got, fmt.Sprint(wdw))
+			steps++
+			if (wdw < 1 || wdw > 1000) && bad < 0 {
+				bad = i
+			}
+		}
+		out, err := m.Replay([]string{"window batches=" + strings.Join(seq, ",")})
+		if err != nil {
+			t.Fatal(err)
+		}
+		want := strings.TrimPrefix(out[0], "R ")
+		if bad >= 0 {
+			p := ReplayPath(fmt.Sprintf("C19-window-arithmetic-%d.txt", Seed()))
+			writeFile(p, "a fresh HTTP push connection (window 1); batches of outcomes picked up by Receive, in order (f = fast successes, s = slow successes, n = refusals):\n"+strings.Join(seq[:bad+1], ",")+"\nwindow after each: "+strings.Join(got[:bad+2], ",")+"\nmodel: "+want)
+			st.Violate(Violation{What: fmt.Sprintf("after the batches %s the window of the push connection is %s, outside 1..1000", strings.Join(seq[:bad+1], ","), got[bad+1]), Replay: p, FoundInput: true, Sig: "window"})
+			break
+		}
+		if want != strings.Join(got, ",") {
+			p := ReplayPath(fmt.Sprintf("C19-window-arithmetic-%d.txt", Seed()))
+			writeFile(p, "batches "+strings.Join(seq, ",")+"\nmodel "+want+"\nimpl  "+strings.Join(got, ","))
+			st.Violate(Violation{What: "adaptive window arithmetic differs from the model: batches " + strings.Join(seq, ",") + " model " + want + " impl " + strings.Join(got, ","), Replay: p, FoundInput: false, Sig: "correspondence"})
+			break
+		}
+	}
+	st.Count("window_arithmetic_steps", steps)
+}
+
+// pushOutcomeRouting: outcomes of all three kinds are queued on one HTTP push connection at once; each
+// Receive then has to report the queued outcomes of exactly one kind, successes as acknowledgements and
+// refusals as negative acknowledgements, until everything is drained — whichever queue the runtime's
+// `select` picks first.  (End to end this is the mixed-batch scenario of TestC19 / TestC06, where how
+// much is drained at once is up to the scheduler.)  Returns "" or what went wrong.
+func pushOutcomeRouting(st *Stats, seed int64) string {
+	rng := rand.New(rand.NewSource(seed*104729 + 6))
+	rounds := 30
+	if Tier() == "thorough" {
+		rounds = 300
+	}
+	for r := 0; r < rounds; r++ {
+		nf, ns, nn := rng.Intn(6), rng.Intn(6), rng.Intn(6)
+		if r == 0 {
+			nf, ns, nn = 0, 4, 10
+		}
+		if r == 1 {
+			nf, ns, nn = 3, 3, 3
+		}
+		if nf+ns+nn == 0 {
+			continue
+		}
+		pw := actions.NewPushWindowForVerif()
+		f, s, n := pw.Load(nf, ns, nn)
+		kindOf := map[uuid.UUID]string{}
+		for _, id := range f {
+			kindOf[id] = "fast success"
+		}
+		for _, id := range s {
+			kindOf[id] = "slow success"
+		}
+		for _, id := range n {
+			kindOf[id] = "refusal"
+		}
+		left := map[string]int{"fast success": nf, "slow success": ns, "refusal": nn}
+		desc := fmt.Sprintf("%d fast successes, %d slow successes and %d refusals queued on one push connection", nf, ns, nn)
+		for calls := 0; left["fast success"]+left["slow success"]+left["refusal"] > 0; calls++ {
+			if calls > 3 {
+				return desc + ": after three calls of Receive there are still outcomes queued"
+			}
+			ctx, cancel := context.WithTimeout(context.Background(), time.Second)
+			acks, nacks, _, err := pw.Drain(ctx)
+			cancel()
+			if err != nil {
+				return desc + ": Receive: " + err.Error()
+			}
+			kinds := map[string]int{}
+			for _, id := range acks {
+				k := kindOf[id]
+				if k == "refusal" || k == "" {
+					return fmt.Sprintf("%s: Receive reports a %s as an acknowledgement", desc, map[string]string{"refusal": "refused push", "": "push that was never made"}[k])
+				}
+				kinds[k]++
+			}
+			for _, id := range nacks {
+				k := kindOf[id]
+				if k != "refusal" {
+					return fmt.Sprintf("%s: Receive reports a %s as a negative acknowledgement (the message will be pushed again)", desc, map[string]string{"fast success": "push answered with success", "slow success": "push answered (slowly) with success", "": "push that was never made"}[k])
+				}
+				kinds[k]++
+			}
+			if len(kinds) != 1 {
+				return fmt.Sprintf("%s: one Receive reports outcomes of %d kinds (%v)", desc, len(kinds), kinds)
+			}
+			for k, c := range kinds {
+				if c != left[k] {
+					return fmt.Sprintf("%s: Receive reports %d of the %d queued outcomes of kind %q", desc, c, left[k], k)
+				}
+				left[k] = 0
+			}
+		}
+		st.Count("outcome_routing_rounds", 1)
+	}
+	return ""
+}
+
+// pushOutcomeRoutingFor: pushOutcomeRouting as a scenario of another property (C04: a refused push is
+// pushed again after the back-off; C06: refused pushes count as attempts) — a refusal that the
+// connection reports as an acknowledgement completes the delivery instead.
+func pushOutcomeRoutingFor(prop string) func(t *testing.T, st *Stats) {
+	return func(t *testing.T, st *Stats) {
+		if what := pushOutcomeRouting(st, Seed()); what != "" {
+			p := writeScenario(prop, "push-outcome-routing", what, []string{"a fresh HTTP push connection of the push streamer", what})
+			st.Violate(Violation{What: "[push-outcome-routing] " + what, Replay: p, FoundInput: true, Sig: "push-outcome-routing"})
 		}
 	}
 }
